@@ -26,6 +26,8 @@ func checkC02(c *Ctx) {
 	checkFailedOpEffectFree(c, "C02.R4", nil)
 	checkMemoryLocking(c, "C02.R5")
 	checkSQLFencing(c, "C02.R6")
+	c.Rule("C02.R7", "per-row state in scan loops is per-iteration: in every loop calling rows.Scan, a local cell allocated outside the loop that is not an accumulator (not read after the loop) is definitely assigned, field by field, before each read in the same iteration — so no row's verdict (expired, state, id) carries over to the next row")
+	checkScanLoopRowState(c, "C02.R7")
 }
 
 func transOf(p *Program, backend string) []Trans {
